@@ -28,6 +28,7 @@ def _run_case(job):
     ssa, case, timeout_ms, seed, setup_name = job
     prog = get_prog(ssa)
     ex = core.Executor(prog, timeout_ms=timeout_ms, seed=seed)
+    setup_name = case.opts.get('setup', setup_name)
     if setup_name:
         mod, fn = setup_name.rsplit(':', 1)
         import importlib
